@@ -11,6 +11,7 @@ import (
 	"io"
 	"os"
 	"path/filepath"
+	"sort"
 	"strings"
 	"sync"
 	"testing/synctest"
@@ -626,7 +627,14 @@ func (w *World) StoredParts(ctx context.Context) (map[string]map[string]bool, er
 		return nil, err
 	}
 	defer tx.Rollback(ctx)
-	for name, ps := range w.Stores {
+	// sorted: the calls yield, and their order is part of the canonical event log
+	names := make([]string, 0, len(w.Stores))
+	for name := range w.Stores {
+		names = append(names, name)
+	}
+	sort.Strings(names)
+	for _, name := range names {
+		ps := w.Stores[name]
 		ids, err := ps.GetPartIds(ctx, tx)
 		if err != nil {
 			return nil, err
